@@ -49,6 +49,8 @@ structure QNode where
   f : Fields := {}
   kids : List Tree := []
   num : Option Nat := none
+  /-- the label token of the node as it was written (`rawlabel`): the word of an empty-POS token -/
+  raw : Str := []
 deriving Inhabited
 
 def QNode.toTree (q : QNode) : Tree :=
@@ -101,7 +103,7 @@ def brStep (o : InOpts) (st : BrState) (tok : Str × LexClass) : Except Err (BrS
       if st.state == 2 && !o.emptyPos then .error .valueError else
       let (queue, termCnt) :=
         if st.state == 2 then
-          (updLast st.queue (fun q => { q with f := { q.f with word := some q.f.label, label := DEFAULT_LABEL, edge := some DEFAULT_EDGE, morph := some DEFAULT_MORPH }, num := some st.termCnt }), st.termCnt + 1)
+          (updLast st.queue (fun q => { q with f := { q.f with word := some q.raw, label := DEFAULT_LABEL, edge := some DEFAULT_EDGE, morph := some DEFAULT_MORPH }, num := some st.termCnt }), st.termCnt + 1)
         else (st.queue, st.termCnt)
       let level := st.level - 1
       let queue := if queue.length > 1 then closeLast queue else queue
@@ -120,7 +122,7 @@ def brStep (o : InOpts) (st : BrState) (tok : Str × LexClass) : Except Err (BrS
     if st.state == 0 then .ok (st, none)
     else if st.state == 1 || st.state == 9 then
       let (label, edge) := if o.gfSplit then gfSplitLabel sep tok.1 else (tok.1, DEFAULT_EDGE)
-      .ok ({ st with queue := updLast st.queue (fun q => { q with f := { q.f with label := label, edge := some edge, morph := some DEFAULT_MORPH } }), state := 2 }, none)
+      .ok ({ st with queue := updLast st.queue (fun q => { q with f := { q.f with label := label, edge := some edge, morph := some DEFAULT_MORPH }, raw := tok.1 }), state := 2 }, none)
     else if st.state == 3 then
       .ok ({ st with queue := updLast st.queue (fun q => { q with f := { q.f with word := some tok.1 }, num := some st.termCnt }), termCnt := st.termCnt + 1, state := 4 }, none)
     else .error .valueError
